@@ -194,7 +194,65 @@ R.add('L1.3', l13, lambda tier: [dict(kind=k, tname=t, maxcount=(2 if tier == 'q
               'at most the single hello is dispatched'],
       bounds='count <= 2 (thorough 3) inner messages, body <= 40 (60) arbitrary bytes')
 
+
+# ------------------------------------------------------------------ L1.4 the server gate: a half-open connection holds a key too
+def l14():
+    """through the real server loop: an honest client at address A has sent its hello, the server has derived the
+    session key and answered (A sits in the pool of half-open connections).  Before A's challenge response arrives,
+    an attacker injects one unauthenticated datagram with A's address as its source - any header type with a valid
+    CRC and arbitrary body bytes, or a hello-typed datagram.  The server-side connection object of A, its key, token
+    and status are untouched, and A's genuine challenge response still completes the handshake."""
+    from . import loop, c11
+    A = c11.A
+    pa = None
+    snap = {}
+
+    def script(world, tick):
+        nonlocal pa
+        if tick == 1:
+            pa = loop.Peer(world, A)
+            pa.c._sendClientHello()
+            world.inject(pa.emit(), A)
+            return
+        if tick == 3:
+            sv = world.ctxt.temp_connections.get(A)
+            if sv is not None:
+                snap['obj'] = sv
+                snap['before'] = (sv.session_key_bytes, sv.token, sv.status)
+            kind = ['forged_header', 'tiny_hello'][choose(2, 'forged_kind')]
+            world.inject(c11.hostile(kind, tick, world, pa), A)
+        if tick == 4:
+            now = world.ctxt.temp_connections.get(A)
+            snap['after_obj'] = now
+            if now is not None:
+                snap['after'] = (now.session_key_bytes, now.token, now.status)
+        if tick >= 4:
+            c11.loop_reply(world, pa)          # A reads the server hello and answers the challenge; later: keep-alives
+
+    world = loop.World(8, script)
+    world.run()
+    check(world.escaped is None, 'no exception leaves the server loop', escaped=repr(world.escaped))
+    check('obj' in snap and snap['obj'].session_key_bytes is not None, 'the half-open connection holds a session key before the forgery arrives')
+    check(snap.get('after_obj') is snap.get('obj'), 'an unauthenticated datagram does not replace the half-open connection of the address it claims')
+    if 'after' in snap:
+        check(snap['after'][0] is snap['before'][0] and bool(snap['after'][1] == snap['before'][1]) and snap['after'][2] == snap['before'][2],
+              'key, token and status of the half-open connection are untouched by an unauthenticated datagram')
+    ev = world.handler.events
+    check(len([e for e in ev if e[0] == 'connect' and e[1].addr == A]) == 1,
+          'the genuine challenge response still completes the handshake (connect event for A)')
+    check(pa.c.status == Status.CONNECTED, 'the honest client is connected')
+
+
+R.add('L1.4', l14, [{}],
+      desc='real server loop: forged CRC datagram (any type / hello-typed) from the address of a half-open connection that already '
+           'holds a key: connection object, key, token, status untouched; the genuine handshake completes',
+      expect=['an unauthenticated datagram does not replace the half-open connection of the address it claims',
+              'the genuine challenge response still completes the handshake (connect event for A)'],
+      bounds='one forged datagram (free header fields, <= 5 arbitrary body bytes, or a hello-typed datagram with 3 arbitrary message bytes); 8 loop ticks')
+
 import sys as _sys  # noqa: E402
+from . import loop as _loop, c11 as _c11  # noqa: E402
+R.lemmas['L1.4'].replay = generic_replay(l14, [proto, _loop, _c11, _sys.modules[__name__]], patches=_c11.LOOPPATCH)
 for _l in R.lemmas.values():
     if _l.replay is None:
         _l.replay = generic_replay(_l.func, [proto, _sys.modules[__name__]])
